@@ -8,6 +8,7 @@ GEN="MANIFEST.json lean/ILV/Drv/All.lean lean/ILV.lean harness/src/p/mod.rs harn
 git merge --no-commit --no-ff "$B" >/tmp/merge.log 2>&1 || true
 if ! git rev-parse -q --verify MERGE_HEAD >/dev/null; then echo "nothing to merge or merge failed early"; cat /tmp/merge.log | tail -3; fi
 for f in $GEN; do git checkout --ours -- "$f" 2>/dev/null || git rm -q --cached "$f" 2>/dev/null || true; done
+for f in $(git diff --name-only --diff-filter=U -- evidence); do git checkout --ours -- "$f"; git add "$f"; done
 # evidence: keep ours where it exists, drop branch evidence (it is rewritten by ./check here)
 for f in $(git diff --name-only --cached -- evidence 2>/dev/null); do git checkout --ours -- "$f" 2>/dev/null || { git rm -q --cached "$f"; rm -f "$f"; }; done
 python3 tools/regen.py
